@@ -686,6 +686,10 @@ func finishSprint(res *hx.Result, u *universe, in *sprintInput, obs *sprintObs, 
 }
 
 // corpus: F6a (msg trigger, no last_seen_on, group last_seen_on != "") and neighbours, always first
+func uniForStale() *uniSpec {
+	return &uniSpec{MaxChars: 640, UseLoc: true, Groups: []groupSpec{{Name: "S0"}, {Name: "S1"}, {Name: "Q0", Query: `telegram != ""`, Coq: "QHasScheme 2"}}}
+}
+
 func sprintCorpus() []*sprintInput {
 	uni := &uniSpec{MaxChars: 640, UseLoc: true, Groups: []groupSpec{{Name: "S0"}, {Name: "S1"},
 		{Name: "Q0", Query: `last_seen_on != ""`, Coq: "QLastSeenSet"}, {Name: "Q1", Query: `tickets > 0`, Coq: "QHasTicket"},
@@ -710,7 +714,13 @@ func sprintCorpus() []*sprintInput {
 	kigali := func() *contactSpec {
 		return &contactSpec{Name: "Jim", Lang: "eng", Status: "active", TZ: "Africa/Kigali", Groups: []int{0}, Fields: map[string]string{}}
 	}
+	staleC := func() *contactSpec {
+		return &contactSpec{Name: "Jim", Lang: "eng", Status: "active", URNs: []string{staleURNs[2], "telegram:12345?channel=" + ch1}, Groups: []int{0}, Fields: map[string]string{}}
+	}
 	return []*sprintInput{
+		// set_contact_channel with no channel on a contact whose URN names a channel the assets no longer have
+		{Universe: uniForStale(), Contact: staleC(), Trigger: "manual", Nodes: []nodeSpec{{Actions: []*modSpec{{Kind: "channel", Channel: -1}}, Wait: "msg"}, {Actions: []*modSpec{{Kind: "channel", Channel: 0}}}},
+			Resumes: []resumeSpec{{Kind: "msg", Refresh: staleC()}}},
 		{Universe: tzUni, Contact: kigali(), Trigger: "manual", Nodes: []nodeSpec{{Wait: "msg"}, {}}, Resumes: []resumeSpec{{Kind: "msg", At: "2024-05-06T23:30:00Z"}}, OracleOnly: true},
 		{Universe: tzUni, Contact: kigali(), Trigger: "manual", Nodes: []nodeSpec{{Wait: "msg"}, {Actions: []*modSpec{{Kind: "name", Text: "Bob"}}}}, Resumes: []resumeSpec{{Kind: "msg", At: "2024-05-06T23:30:00Z"}}, OracleOnly: true},
 		// the received message is not later than the contact's last seen (12:00:00 vs 08:00:00 / 09:00:00; equal; 30 s
